@@ -48,14 +48,16 @@ theorem scan_raises (l : List Elem) (c : CastExc) (h : scan l = .raises c) :
         cases h
         exact ⟨List.mem_cons_self, by simpa using hc⟩
 
-/-- No element raises an exception class outside the `except` tuple of the feasibility check. -/
-def NoForeignCast (l : List Elem) : Prop := ∀ c, Elem.bad c ∈ l → castCaught c = true
+/-- The feasibility check catches every exception class of `float(v)`. -/
+theorem castCaught_all (c : CastExc) : castCaught c = true := by
+  cases c <;> rfl
 
-theorem scan_not_raises (l : List Elem) (h : NoForeignCast l) (c : CastExc) : scan l ≠ .raises c := by
+/-- Hence the scan never lets a cast error propagate. -/
+theorem scan_not_raises (l : List Elem) (c : CastExc) : scan l ≠ .raises c := by
   intro hs
-  have := scan_raises l c hs
-  rw [h c this.1] at this
-  exact absurd this.2 (by simp)
+  have := (scan_raises l c hs).2
+  rw [castCaught_all] at this
+  cases this
 
 theorem check_feasible_iff (nObj : Nat) (l : List Elem) :
     checkValuesFeasible nObj l = .feasible ↔ (∀ e ∈ l, e.Good) ∧ l.length = nObj := by
@@ -80,9 +82,9 @@ theorem check_raises (nObj : Nat) (l : List Elem) (c : CastExc)
   · split at h <;> cases h
   · exact h
 
-theorem check_not_raises (nObj : Nat) (l : List Elem) (h : NoForeignCast l) (c : CastExc) :
+theorem check_not_raises (nObj : Nat) (l : List Elem) (c : CastExc) :
     checkValuesFeasible nObj l ≠ .raises c :=
-  fun hc => scan_not_raises l h c (check_raises nObj l c hc)
+  fun hc => scan_not_raises l c (check_raises nObj l c hc)
 
 /-- After a successful check, the stored floats are exactly the casts of the elements, in order. -/
 theorem floats_spec (l : List Elem) (h : ∀ e ∈ l, e.Good) : l = (floats l).map Elem.ok := by
